@@ -8,7 +8,7 @@ RULE = ("single-fault corruptions of generated valid files (per sig field: empty
         "sig/label/sys), loaded alternately into a fresh and into ONE long-lived Database through one path, all sequences of <= 3 line kinds from a 19-kind alphabet (thorough: <= 4), unreadable paths; observable = "
         "exception class and .line_number, or the loaded database; non-trivial = the model rejects the file")
 ASSUMPTIONS = ["'comment line' = ';' in column 0 (the code's own rule); int() leniency ('+5', ' 5', '6_4') is not an error"]
-GEN_TIE = "sig"   # TCPSignature.parse / MTUSignature.parse and their field parsers are also TRANSLATED (translate/sig2coq.py) on every run and proved equal to the model (Gen/GenSigP.v)
+GEN_TIE = ["sig", "file"]   # TCPSignature.parse / MTUSignature.parse and their field parsers are also TRANSLATED (translate/sig2coq.py) on every run and proved equal to the model (Gen/GenSigP.v); so are the line loop of _parse_file, _parse_section, labels and RecordsDatabase.create/add (translate/file2coq.py, Gen/GenFileP.v)
 EXHAUSTIVE = {"all sequences of <= 3 line kinds over 19 kinds": True,
               "every value of the per-field boundary catalogue (dbgen.*_FAULTS) in an otherwise valid one-record file": True}
 OK_EXC = {"ParsingError", "DatabaseError"}
